@@ -84,10 +84,45 @@ def call_block(ctx, rng, lines, cases):
             ctx.count("chained-call:accepted")
 
 
+def longdouble_block(ctx, lines, cases):
+    """the same through __call__ with an extended-precision state (numpy.longdouble: the stage equations go to the library's own dogleg
+    solver instead of MINPACK): whatever is accepted must not grow and must be the stability function at the step taken"""
+    import random as _random
+    r = _random.Random(ctx.seed * 86028121 + 11)
+    LD = np.longdouble
+    lams = [complex(-0.5, 0.0), complex(-3.0, 1.0), complex(-10.0, 0.0), complex(-40.0, 25.0), complex(-0.25, 6.0), complex(-300.0, 0.0)]
+    methods = list(I.implicit_methods())
+    if ctx.quick():
+        methods = [m for m in methods if m.__name__ != "RadauIIA19"]
+    for cls in methods:
+        for lam in (lams if not ctx.quick() else [lams[i] for i in sorted(r.sample(range(len(lams)), 3))]):
+            a, b = lam.real, lam.imag
+            L = np.array([[a, -b], [b, a]], dtype=LD)
+            f = DS.DiffRHS(lambda t, y: L @ y)
+            f.jac = lambda t, y: L
+            integ = cls((2,), dtype=LD, rtol=1e-7, atol=1e-7)
+            y0 = np.array([1.0, 0.0], dtype=LD)
+            try:
+                new_dt, (dT, dY) = integ(f, LD(0.0), y0.copy(), {}, LD(1.0))
+            except de.exception_types.FailedToMeetTolerances:
+                ctx.count("longdouble-call:refused")
+                continue
+            except Exception as e:
+                ctx.count("longdouble-call:exception:" + type(e).__name__)
+                continue
+            y1v = y0 + np.array(dY)
+            y1 = complex(float(y1v[0]), float(y1v[1]))
+            zr, zi = Fr(lam.real) * Fr(float(dT)), Fr(lam.imag) * Fr(float(dT))
+            lines.append("stab %s %s %s" % (cls.__name__, q(zr), q(zi)))
+            cases.append((cls.__name__, "through-call-longdouble", complex(float(zr), float(zi)), float(dT), y1))
+            ctx.count("longdouble-call:accepted")
+
+
 def run(ctx):
     rng = ctx.rng
     lines, cases = [], []
     call_block(ctx, rng, lines, cases)
+    longdouble_block(ctx, lines, cases)
     reps = 10 if ctx.quick() else 60
     for cls in I.implicit_methods():
         for rep in range(reps + 3):
